@@ -34,11 +34,13 @@ for it in nfa.UNIT['items']:
         BASE.append(Raw('''
 #[verifier::external_type_specification] #[verifier::external_body] pub struct ExAstError(regex_syntax::ast::Error);
 #[verifier::external_type_specification] #[verifier::external_body] pub struct ExIoError(std::io::Error);
-pub assume_specification<T: ?Sized + core::marker::MetaSized, A: std::alloc::Allocator>[ <std::boxed::Box<T, A> as std::convert::AsRef<T>>::as_ref ](b: &std::boxed::Box<T, A>) -> (r: &T)
-    ensures r == &**b;
 pub assume_specification[ <regex_syntax::ast::Error as Clone>::clone ](e: &regex_syntax::ast::Error) -> (r: regex_syntax::ast::Error)
     ensures r == *e;
 ''', label='regex_syntax::ast::Error, std::io::Error (opaque, imported)'))
+        BASE.append(Raw('''
+pub assume_specification<T: ?Sized + core::marker::MetaSized, A: std::alloc::Allocator>[ <std::boxed::Box<T, A> as std::convert::AsRef<T>>::as_ref ](b: &std::boxed::Box<T, A>) -> (r: &T)
+    ensures r == &**b;
+''', label='Box::as_ref spec'))  # (units that include common/class_types.rs have it from there and drop this item)
         BASE.append(Enum(F_ERR, 'ScnrErrorKind', strip_attrs=True, default_features=DEFAULT_FEATURES))
         BASE.append(Struct(F_ERR, 'ScnrError', derive=[]))
         BASE.append(Fn(F_ERR, 'ScnrError', 'new', ret='r', props=['C15', 'C02'], spec='ensures *r.source == kind'))
